@@ -194,17 +194,9 @@ impl OutputStream {
         let mut out = String::new();
         let bytes: &[u8] = self.into();
         let lines = bytes.split_at_newline();
-        let ends_in_newline = !bytes.is_empty() && bytes[bytes.len() - 1] == b'\n';
-        for (idx, line) in lines.iter().enumerate() {
+        for line in lines.iter() {
             let expectation = escaper.escaped_expectation(line);
-            let suffix = if !ends_in_newline
-                && !expectation.ends_with(" (escaped)")
-                && idx + 1 == lines.len()
-            {
-                " (no-eol)"
-            } else {
-                ""
-            };
+            let suffix = escaper.expectation_suffix(line);
             out.push_str(&formatln!("{}{}{}", prefix, &expectation, suffix))
         }
         out
